@@ -304,8 +304,9 @@ void kv_run(int kind, struct msa *msa)
                         snprintf(det, sizeof det, "merges began %d ended %d expected %d", R.n_began, R.n_ended, R.numseq - 1);
                         violation("C02", "merge-count", det);
                 }
-                if (R.last_ended != R.num_profiles - 1) {
-                        snprintf(det, sizeof det, "last merge to end was node %d, root is %d", R.last_ended, R.num_profiles - 1);
+                /* the root is node 2*numseq-2 (numseq after removal of empty sequences; msa->num_profiles may be larger) */
+                if (R.last_ended != 2 * R.numseq - 2) {
+                        snprintf(det, sizeof det, "last merge to end was node %d, root is %d", R.last_ended, 2 * R.numseq - 2);
                         violation("C02", "root-not-last", det);
                 }
         } else if (msa->numseq >= 2) {
